@@ -92,16 +92,6 @@ func parked(state string) bool {
 	return false
 }
 
-func maxGID() int {
-	mx := 0
-	for _, g := range snapshot() {
-		if g.id > mx {
-			mx = g.id
-		}
-	}
-	return mx
-}
-
 // ---------------------------------------------------------------------------
 // Case environment: one real client, one real server connection, harness app
 // ---------------------------------------------------------------------------
@@ -206,7 +196,7 @@ type srvReq struct {
 
 type env struct {
 	m    *mon.M
-	base int // goroutines with id <= base predate the case
+	pre  map[int]bool // goroutines that predate the case (goroutine ids are not monotonic across Ps)
 
 	cEnd, sEnd *duplexEnd
 	client     *ssh.Client
@@ -250,7 +240,10 @@ func (e *env) traceCopy() []string {
 
 func newEnv(m *mon.M, serverVersion string) (*env, error) {
 	e := &env{m: m, cancelOK: map[string]bool{}}
-	e.base = maxGID()
+	e.pre = map[int]bool{}
+	for _, g := range snapshot() {
+		e.pre[g.id] = true
+	}
 	e.cEnd, e.sEnd = newDuplex()
 	scfg := &ssh.ServerConfig{NoClientAuth: true, ServerVersion: serverVersion}
 	scfg.AddHostKey(signer())
@@ -625,12 +618,16 @@ func (e *env) judgeRejectLocked(o *openRec) {
 // Waiting without verdicts: settle / await
 // ---------------------------------------------------------------------------
 
+var lastSnap []gsnap
+
 func (e *env) allParked() bool {
-	for _, g := range snapshot() {
-		if g.id > e.base && !parked(g.state) {
+	sn := snapshot()
+	for _, g := range sn {
+		if !e.pre[g.id] && !parked(g.state) {
 			return false
 		}
 	}
+	lastSnap = sn
 	return true
 }
 
@@ -825,7 +822,17 @@ func (e *env) frozenVerdict(opFrame, opName, suffix string, extra map[string]any
 	}
 	key, summary, ok := waitFor(gs, opFrame, opName, suffix)
 	if !ok {
-		e.inconclusive("system frozen but the blocked operation is not parked inside x/crypto frames: " + opName)
+		diag := ""
+		for _, g := range gs {
+			if id, _ := strconv.Atoi(g.ID); !e.pre[id] {
+				fr := g.Frames
+				if len(fr) > 12 {
+					fr = fr[:12]
+				}
+				diag += fmt.Sprintf("\n g%s [%s] %s", g.ID, g.State, strings.Join(fr, " < "))
+			}
+		}
+		e.inconclusive("system frozen but the blocked operation is not parked inside x/crypto frames: " + opName + diag + "\ntrace: " + strings.Join(e.traceCopy(), " | "))
 		return true
 	}
 	e.mu.Lock()
@@ -1014,6 +1021,12 @@ func (e *env) doListen(p lplan) *lst {
 		return nil
 	}
 	pc := p
+	if pc.burst > 0 && e.backlogLocked(1, "") {
+		// a forward sent at registration may be routed to an equal-address listener
+		// that is not being serviced; Listen (forwardList.add) would then wait behind it
+		pc.burst = 0
+		e.m.Count("listen_burst_suppressed_unserviced_backlog", 1)
+	}
 	e.curListen = &pc
 	e.lastFwd = srvReq{}
 	e.settledOK = false
@@ -1037,7 +1050,18 @@ func (e *env) doListen(p lplan) *lst {
 	dropped := e.dropped
 	e.mu.Unlock()
 	if st != stReturned {
-		e.inconclusive("Listen did not return (not part of the property): state " + fmt.Sprint(st))
+		diag := ""
+		for _, g := range mon.ParseDump(mon.GoroutineDump()) {
+			if true {
+				fr := g.Frames
+				if len(fr) > 8 {
+					fr = fr[:8]
+				}
+				diag += fmt.Sprintf("\n g%s [%s] %s", g.ID, g.State, strings.Join(fr, " < "))
+			}
+		}
+		diag += fmt.Sprintf("\nlastSnap=%v pre=%v", lastSnap, e.pre)
+		e.inconclusive("Listen did not return (not part of the property): state " + fmt.Sprint(st) + diag + "\ntrace: " + strings.Join(e.traceCopy(), " | "))
 		return nil
 	}
 	if res.pv != nil {
@@ -1538,7 +1562,7 @@ func (e *env) leakCheck(stage string) {
 	found := false
 	for _, g := range gs {
 		id, _ := strconv.Atoi(g.ID)
-		if id > e.base && flMethod(g) != "" {
+		if !e.pre[id] && flMethod(g) != "" {
 			found = true
 		}
 	}
@@ -1553,7 +1577,7 @@ func (e *env) leakCheck(stage string) {
 	}
 	for _, g := range gs {
 		id, _ := strconv.Atoi(g.ID)
-		if id > e.base && flMethod(g) != "" {
+		if !e.pre[id] && flMethod(g) != "" {
 			e.mu.Lock()
 			w := e.witnessLocked(nil, nil)
 			e.mu.Unlock()
@@ -1604,7 +1628,7 @@ func (e *env) teardown() {
 	left := func() (l []gsnap, allParked bool) {
 		allParked = true
 		for _, g := range snapshot() {
-			if g.id > e.base {
+			if !e.pre[g.id] {
 				l = append(l, g)
 				if !parked(g.state) {
 					allParked = false
@@ -1661,7 +1685,7 @@ func (e *env) teardown() {
 	flLeft := ""
 	for _, g := range gs {
 		id, _ := strconv.Atoi(g.ID)
-		if id <= e.base {
+		if e.pre[id] {
 			continue
 		}
 		raw = append(raw, g.Raw)
